@@ -21,6 +21,8 @@ from .values import *  # noqa: F403
 from . import api
 
 VERIF = FsPath(__file__).resolve().parent.parent
+# scratch runs against a seeded tree redirect their outputs (never the committed evidence)
+OUTROOT = FsPath(os.environ["VERIF_OUT"]) if os.environ.get("VERIF_OUT") else VERIF
 VENV_PY = "/venv/bin/python"
 
 
@@ -59,6 +61,8 @@ def concretise(model, v, depth=0, seqcap=12):
         if n > seqcap:
             out.append(f"<... {n - seqcap} more>")
         return out
+    if isinstance(v, MList):
+        return concretise(model, v.seq, depth, seqcap)
     if isinstance(v, (list, tuple)):
         return [concretise(model, x, depth + 1, seqcap) for x in v]
     if isinstance(v, dict):
@@ -213,8 +217,17 @@ def _run_contract(args):
                 res["functions"][spec] = func_hash(node)
             except KeyError as e:
                 res["unsupported"].append(("anchor", str(e)))
-        ex = Explorer(index, max_paths=c.max_paths or (20000 if tier == "quick" else 100000), shard=shard)
+        kw = {}
+        if isinstance(shard, tuple) and shard and shard[0] == "split":
+            kw = dict(split_until=shard[1])
+        elif isinstance(shard, tuple) and shard and shard[0] == "sub":
+            kw = dict(initial_work=shard[2], id_base=100000 * (shard[1] + 1), time_budget_s=25)
+        else:
+            kw = dict(shard=shard)
+        ex = Explorer(index, max_paths=c.max_paths or (20000 if tier == "quick" else 100000), **kw)
         results = ex.run(c.driver)
+        if kw.get("split_until") is not None or kw.get("time_budget_s") is not None:
+            res["pending"] = [list(map(tuple, p)) for p in ex.work]
         res["paths"] = len(results)
         res["covers"] = dict(ex.covers)
         res["stats"] = dict(ex.stats)
@@ -288,6 +301,8 @@ def load_known(prop):
     data = json.loads(p.read_text())
     out = [k for k in data.get("findings", []) if k.get("property") == prop and k.get("status") == "known"]
     for k in out:
+        if k.get("signatures_list"):
+            k["signatures"] = set(k["signatures_list"])
         if k.get("inputs_file"):
             f = VERIF / k["inputs_file"]
             k["signatures"] = set(f.read_text().splitlines()) if f.exists() else set()
@@ -318,24 +333,42 @@ def run_property(prop, tier="quick", seed=0, only=None, extra=None):
         if c.tier not in ("P", "BS"):
             continue
         D = getattr(c, "shard_bits", 0)
+        if getattr(c, "split", 0):
+            # dynamic partition: a breadth-first pass produces >= 3*split pending decision prefixes, dealt round-robin to `split` sub-tasks
+            tasks.append((prop, c.name, tier, seed, timeout_ms, ("split", 3 * c.split)))
+            continue
         for k in range(2 ** D):
             tasks.append((prop, c.name, tier, seed, timeout_ms, (k, D)))
-    nproc = min(16, max(1, len(tasks)))
+    nproc = 16 if any(t[5] and t[5][0] == "split" for t in tasks) else min(16, max(1, len(tasks)))
     results = []
     if tasks:
         ctx = mp.get_context("fork")
         with ctx.Pool(nproc) as pool:
             asyncs = [(t, pool.apply_async(_run_contract, (t,))) for t in tasks]
-            for t, a in asyncs:
+            # split tasks first, so that their sub-tasks are queued early
+            asyncs.sort(key=lambda ta: 0 if (ta[0][5] and ta[0][5][0] == "split") else 1)
+            i_async = 0
+            sub_seq = [0]
+            while i_async < len(asyncs):
+                t, a = asyncs[i_async]
+                i_async += 1
                 c = next(c for c in contracts if c.name == t[1])
                 lim = c.timeout_s or (600 if tier == "quick" else 3600)
                 try:
-                    results.append(a.get(timeout=lim))
+                    r_ = a.get(timeout=lim)
+                    results.append(r_)
+                    pend = r_.pop("pending", None)
+                    if pend:
+                        nsub = min(c.split, len(pend))
+                        for k in range(nsub):
+                            sub_seq[0] += 1
+                            t2 = (t[0], t[1], t[2], t[3], t[4], ("sub", sub_seq[0], pend[k::nsub]))
+                            asyncs.append((t2, pool.apply_async(_run_contract, (t2,))))
                 except mp.TimeoutError:
                     results.append({"contract": t[1], "prop": prop, "obligations": [], "unsupported": [("timeout", f"contract exceeded {lim}s")],
                                     "paths": 0, "error": None, "covers": {}, "functions": {}, "solver_ms": {}, "stats": {}, "wall_s": lim})
             pool.terminate()
-    outdir = VERIF / "out" / prop
+    outdir = OUTROOT / "out" / prop
     outdir.mkdir(parents=True, exist_ok=True)
     for old in outdir.glob("*.json"):
         old.unlink()
@@ -420,13 +453,21 @@ def run_property(prop, tier="quick", seed=0, only=None, extra=None):
     lines = []
     reported = set()
     per_ob = {}
+    replay_cache = {}
     for c, r, ob, full in violations:
         per_ob[full] = per_ob.get(full, 0) + 1
         if per_ob[full] > 8 and full in reported:
             continue
         rep = None
         if c.replay:
-            rep = run_replay(prop, c.replay, ob.get("witness"), full, ob.get("expects"))
+            if getattr(mod, "REPLAY_KEYED_BY_EXPECTS", False):
+                # the native search of this property depends on the obligation and the expected outcome only, not on the abstract witness
+                ck = (c.replay, full, json.dumps(ob.get("expects"), sort_keys=True, default=str))
+                if ck not in replay_cache:
+                    replay_cache[ck] = run_replay(prop, c.replay, ob.get("witness"), full, ob.get("expects"))
+                rep = replay_cache[ck]
+            else:
+                rep = run_replay(prop, c.replay, ob.get("witness"), full, ob.get("expects"))
         kf = None
         for k in known:
             if k.get("obligation") and not full.endswith(k["obligation"]) and k["obligation"] not in full:
@@ -535,8 +576,8 @@ def run_property(prop, tier="quick", seed=0, only=None, extra=None):
         "wall_s": wall,
         "violations": sum(1 for l in lines if l.startswith("VIOLATION")),
     }
-    (VERIF / "evidence").mkdir(exist_ok=True)
-    (VERIF / "evidence" / f"{prop}.json").write_text(json.dumps(ev, indent=1, default=str))
+    (OUTROOT / "evidence").mkdir(parents=True, exist_ok=True)
+    (OUTROOT / "evidence" / f"{prop}.json").write_text(json.dumps(ev, indent=1, default=str))
     print(f"[{prop}] tier={tier} contracts={len(results)} paths={ev['coverage']['paths']} obligations={n_ob} discharged={n_dis} "
           f"undecided={len(undecided)} violations={ev['violations']} known={len(seen_k)} bounded={len(bounded)} wall={wall}s exit={exit_code}")
     return exit_code
